@@ -97,6 +97,12 @@ static PALETTE: &[P] = &[
     p("rat31", "2147483647/2147483646", K::Rat, false),
     p("ratmin", "-2147483648/3", K::Rat, false),
     p("ratbig", "100000000000000000000/3", K::Rat, false),
+    // the same values in ANOTHER representation (zero and small integers carried as a rational or as a bignum):
+    // what arithmetic leaves behind, never what the reader produces
+    p("rat0", "(- 1/2 1/2)", K::Rat, true),
+    p("rat2", "(/ 4 2)", K::Rat, false),
+    p("big0", "(- 9223372036854775808 9223372036854775808)", K::Huge, false),
+    p("big1", "(- 9223372036854775809 9223372036854775808)", K::Huge, false),
     p("0.0", "0.0", K::Flo, false),
     p("-0.0", "-0.0", K::Flo, false),
     p("1.5", "1.5", K::Flo, true),
